@@ -1198,14 +1198,25 @@ func (self *ReplicationServer) handleInitSync(command *protocol.CallCommand) (*p
 	}
 
 	if request.AofId == "" {
+		// Aof.PushLock assigns the log position under aofGlock and publishes the record to the ring
+		// under replGlock: look at both under both mutexes, or a record that has its position but is
+		// not in the ring yet is sent twice (by the file transfer and again from the ring)
+		self.aof.aofGlock.Lock()
+		self.aof.replGlock.Lock()
 		err = self.manager.bufferQueue.Head(self.bufferCursor)
 		if err != nil {
 			if err != io.EOF {
+				self.aof.replGlock.Unlock()
+				self.aof.aofGlock.Unlock()
 				return protocol.NewCallResultCommand(command, 0, "ERR_STATE", nil), nil
 			}
 			self.waofLock.AofIndex = self.aof.aofFileIndex
 			self.waofLock.AofOffset = self.aof.aofFileOffset + 1
+			self.aof.replGlock.Unlock()
+			self.aof.aofGlock.Unlock()
 		} else {
+			self.aof.replGlock.Unlock()
+			self.aof.aofGlock.Unlock()
 			self.waofLock.buf = self.bufferCursor.buf
 			err = self.waofLock.Decode()
 			if err != nil {
